@@ -11,6 +11,9 @@
 (*   summ : s_new, s_add, s_snap           (Distribution::new_summary / record_samples, snapshot().count(),   *)
 (*          quantiles of the snapshot x 1000)                                                                *)
 (*   rec  : r_start, tick, obs, upkeep, render  (recorder on a mock clock; render() parsed into families)    *)
+(*   par  : pb_*, par   (real-parallel drains, PromDrain.tla: all samples recorded, then render() and          *)
+(*          run_upkeep() - or two render() - released together on two threads, then a quiescent render();     *)
+(*          a pure observation: every render must be exact and nothing may decrease towards the final one)    *)
 (* A panic in the code under test, a `vecmismatch` (result differs from the one TLC exported) or a            *)
 (* `parse_error` (render() is not well-formed) is not a behaviour.                                            *)
 EXTENDS PromHist, Json, IOUtils
@@ -66,6 +69,39 @@ DistObs(e) ==
   /\ IF \E o \in pb.ovr : ~RawMatchOK(o, e.name) /\ CF15a(o, e.name)
      THEN PrintT(<<"KNOWN", "CF15a", l>>) ELSE TRUE
 
+(* ---- real-parallel drains (the schedule is not observable; what PromDrain.tla proves for every schedule ---- *)
+(* ---- is checked: InvViewsExact / InvQuiescentExact and InvViewsMonotone)                                  ---- *)
+ExpectedFam(name, samples) ==
+  LET key == San(name)
+      c   == GetDistribution(pb, key)
+  IN IF c.t = "histogram"
+     THEN [name |-> key, type |-> GetType(pb, key), kind |-> "histogram", les |-> c.bounds,
+           counts |-> [i \in DOMAIN c.bounds |-> CountLe(samples, c.bounds[i])],   \* number of samples <= bound
+           inf |-> Len(samples), sum |-> SumOf(samples), count |-> Len(samples)]
+     ELSE [name |-> key, type |-> GetType(pb, key), kind |-> "summary", les |-> <<>>, counts |-> <<>>,
+           inf |-> 0, sum |-> SumOf(samples), count |-> Len(samples)]
+FamProj(f) == [name |-> f.name, type |-> f.type, kind |-> f.kind, les |-> f.les, counts |-> f.counts, inf |-> f.inf,
+               sum |-> f.sum, count |-> f.count]
+RenderExact(series, fams, what) ==
+  /\ Same(<<what, "families">>, Len(series), Len(fams))
+  /\ \A i \in DOMAIN series :
+       LET key == San(series[i].name)
+           J   == {j \in DOMAIN fams : fams[j].name = key}
+       IN IF J = {} THEN Print(<<"MISSING family at line", l, what, key>>, FALSE)
+          ELSE Same(what, ExpectedFam(series[i].name, series[i].samples), FamProj(fams[CHOOSE j \in J : TRUE]))
+NoDecrease(before, after) ==
+  \A i \in DOMAIN before : \A j \in DOMAIN after :
+     before[i].name = after[j].name =>
+        IF /\ after[j].count >= before[i].count /\ after[j].inf >= before[i].inf
+           /\ Len(after[j].counts) = Len(before[i].counts)
+           /\ \A k \in DOMAIN before[i].counts : after[j].counts[k] >= before[i].counts[k]
+        THEN TRUE
+        ELSE Print(<<"DECREASE at line", l, before[i], after[j]>>, FALSE)
+ParObs(e) ==
+  /\ pb.built
+  /\ RenderExact(e.series, e.final, "quiescent render")
+  /\ \A r \in DOMAIN e.conc : NoDecrease(e.conc[r], e.final) /\ RenderExact(e.series, e.conc[r], "concurrent render")
+
 TraceReset ==
   /\ h' = NoHist /\ hs' = <<>> /\ hfl' = [eqv |-> TRUE, mono |-> TRUE]
   /\ pb' = NewBuilder /\ last' = [set |-> FALSE]
@@ -96,6 +132,7 @@ TraceNext ==
        [] E.ev = "obs"       -> Observe(E.name, E.v) /\ Step
        [] E.ev = "upkeep"    -> Upkeep /\ Step
        [] E.ev = "render"    -> Render /\ Step /\ ViewOK(rec'.view, E.fams)
+       [] E.ev = "par"       -> ParObs(E) /\ Step /\ UNCHANGED vars
        [] OTHER -> FALSE      \* panic / vecmismatch / parse_error / unknown event: not a behaviour
 
 TraceInit == Init /\ l = 1
